@@ -664,6 +664,7 @@ pub fn preprocess_str<T: AsRef<Path>, U: AsRef<Path>, V: BuildHasher>(
                             include_paths,
                             strip_comments,
                             resolve_depth + 1,
+                            include_depth,
                         )? {
                             let p = p.trim().trim_matches('"');
                             PathBuf::from(p)
@@ -723,6 +724,7 @@ pub fn preprocess_str<T: AsRef<Path>, U: AsRef<Path>, V: BuildHasher>(
                     include_paths,
                     strip_comments,
                     resolve_depth + 1,
+                    include_depth,
                 )? {
                     ret.push(&text, origin);
                     defines = new_defines;
@@ -923,6 +925,7 @@ fn resolve_text_macro_usage<T: AsRef<Path>, U: AsRef<Path>>(
     include_paths: &[U],
     strip_comments: bool,
     resolve_depth: usize,
+    include_depth: usize,
 ) -> Result<Option<(String, Option<(PathBuf, Range)>, Defines)>, Error> {
     let (_, ref name, ref args) = x.nodes;
     let id = identifier((&name.nodes.0).into(), &s).unwrap();
@@ -1018,7 +1021,7 @@ fn resolve_text_macro_usage<T: AsRef<Path>, U: AsRef<Path>>(
                 false,
                 strip_comments,
                 resolve_depth,
-                0, // include_depth
+                include_depth,
             )?;
             Ok(Some((
                 String::from(replaced.text()),
